@@ -7,7 +7,7 @@ EXP = {  # test: (sc expectation, wmm expectation); None = no violation, else cl
  'self_spinlock_ok': (None, None), 'self_uaf': ('*', '*'), 'self_mp_atomic_relacq': (None, None),
  'self_mp_atomic_relaxed': (None, 'ORACLE'), 'self_sb_fence': (None, None), 'self_sc_store_fence': (None, None),
  'self_sb_mixed': (None, 'ORACLE'), 'self_sb_sc': (None, None), 'self_sb_relaxed': (None, 'ORACLE'),
- 'self_mp_fence_ok': (None, None), 'self_mp_release_ok': (None, None), 'self_mp_relaxed_race': ('RACE', 'RACE'),
+ 'self_mp_fence_ok': (None, None), 'self_mp_release_ok': (None, None), 'self_mp_relaxed_race': ('RACE', 'RACE'), 'self_access_after_release': ('RACE', 'RACE'), 'self_access_after_release_rmw': ('RACE', 'RACE'),
  'self_fetch_add_ok': (None, None), 'self_weak_cas_single_shot': (None, None), 'self_accessor_calls': ('ORACLE', 'ORACLE'), 'self_lost_update': ('ORACLE', 'ORACLE'),
 }
 def run(t, mode, extra=()):
